@@ -81,6 +81,7 @@ func mkCtxData(i int) pongo2.Context {
 
 func (c *Case) compile() (*pongo2.Template, px.Out) {
 	set, _ := px.NewSet(c.Files)
+	SetGlobals(set)
 	if !c.OptsAfter {
 		set.Options.TrimBlocks = c.Trim
 		set.Options.LStripBlocks = c.LStrip
@@ -108,6 +109,43 @@ func pkgSnapshot() *deep.Snapshot {
 	return deep.Take(extraRoots())
 }
 
+// blockNames are asked for by the ExecuteBlocks operations of a history (blocks that exist in some programs only)
+var blockNames = []string{"c", "d", "b", "bb", "nosuch"}
+
+// run performs one history entry: 0..3 = Execute with that context, 10..13 = ExecuteBlocks with context entry-10
+func run1(tpl *pongo2.Template, entry int) string {
+	if entry < 10 {
+		return px.Exec(tpl, mkCtx(entry)).String()
+	}
+	var res map[string]string
+	var err error
+	site, msg, pan := eng.Protect(func() { res, err = tpl.ExecuteBlocks(mkCtx(entry-10), blockNames) })
+	if pan {
+		return "panic " + site + " " + msg
+	}
+	if err != nil {
+		return "blocks-error " + err.Error()
+	}
+	var ks []string
+	for k := range res {
+		ks = append(ks, k)
+	}
+	sort.Strings(ks)
+	var b strings.Builder
+	b.WriteString("blocks")
+	for _, k := range ks {
+		fmt.Fprintf(&b, " %s=%q", k, res[k])
+	}
+	return b.String()
+}
+
+func entryName(e int) string {
+	if e >= 10 {
+		return "ExecuteBlocks(" + ctxNames[e-10] + ")"
+	}
+	return ctxNames[e]
+}
+
 func (c *Case) Exec(t *eng.T) {
 	// package-level variables are compared from before the first execution of this case (a warm-up compilation
 	// comes first: compiling may legitimately initialise process-wide state once)
@@ -117,29 +155,32 @@ func (c *Case) Exec(t *eng.T) {
 	}
 	pkgBefore := pkgSnapshot()
 	// reference: a freshly compiled template per context
-	fresh := make([]string, len(ctxNames))
-	for i := range ctxNames {
+	fresh := map[int]string{}
+	for _, e := range c.History {
+		if _, ok := fresh[e]; ok {
+			continue
+		}
 		tpl, out := c.compile()
 		if tpl == nil {
 			t.Skip() // the program does not compile: nothing to execute
 			_ = out
 			return
 		}
-		fresh[i] = px.Exec(tpl, mkCtx(i)).String()
+		fresh[e] = run1(tpl, e)
 	}
 	t.Nontrivial()
 	tpl, _ := c.compile()
 	before := deep.Take(roots(tpl))
 	t.AddStates(1)
 	for step, ci := range c.History {
-		got := px.Exec(tpl, mkCtx(ci)).String()
+		got := run1(tpl, ci)
 		t.AddTransitions(1)
 		if got != fresh[ci] {
 			hist := make([]string, step+1)
 			for k := 0; k <= step; k++ {
-				hist[k] = ctxNames[c.History[k]]
+				hist[k] = entryName(c.History[k])
 			}
-			t.Fail("differs:"+c.Label, "%s: after the history %v the execution with context %s gives %s; a freshly compiled template gives %s", c.ID(), hist[:step], ctxNames[ci], got, fresh[ci])
+			t.Fail("differs:"+c.Label, "%s: after the history %v the execution %s gives %s; a freshly compiled template gives %s", c.ID(), hist[:step], entryName(ci), got, fresh[ci])
 			return
 		}
 		after := deep.Take(roots(tpl))
@@ -149,7 +190,7 @@ func (c *Case) Exec(t *eng.T) {
 			if len(d) > 0 {
 				field = deep.FieldOf(d[0])
 			}
-			t.Fail("mutates:"+field, "%s: execution %d (context %s) changed the compiled template: %s", c.ID(), step+1, ctxNames[ci], strings.Join(d, " ; "))
+			t.Fail("mutates:"+field, "%s: execution %d (%s) changed the compiled template: %s", c.ID(), step+1, entryName(ci), strings.Join(d, " ; "))
 			return
 		}
 	}
@@ -167,7 +208,11 @@ func (c *Case) Exec(t *eng.T) {
 			return
 		}
 	}
-	t.Outcome(strings.Join(fresh, "|"))
+	var fo []string
+	for _, e := range c.History {
+		fo = append(fo, fresh[e])
+	}
+	t.Outcome(strings.Join(fo, "|"))
 	t.AddExtra("snapshot_leaves", int64(before.Size()))
 }
 
@@ -178,6 +223,17 @@ type prog struct {
 	src   string
 	files map[string]string
 	body  func(inner string) string // non-nil: the construct can carry a body
+	// once: the source cannot be written twice in one file (extends, block names); @FAIL@ marks where the failure
+	// point goes; such programs also get ExecuteBlocks operations in their histories
+	once bool
+}
+
+// mainOf builds the entry file of a program of the single group
+func mainOf(p prog) string {
+	if p.once {
+		return strings.ReplaceAll(p.src, "@FAIL@", failPoint)
+	}
+	return p.src + failPoint + "\ntail\n" + p.src
 }
 
 func programs() []prog {
@@ -206,7 +262,9 @@ func programs() []prog {
 		{name: "include", src: `{% include "inc" %}{% include "inc" with n=7 only %}`, files: inc},
 		{name: "include-lazy", src: `{% for i in l %}{% include name %}{% endfor %}`, files: inc},
 		{name: "ssi", src: `{% ssi "inc" %}{% ssi "inc" parsed %}`, files: inc},
-		{name: "extends", src: `{% extends "base" %}{% block c %}child{{ block.Super }}{% cycle "1" "2" %}{% endblock %}`, files: base},
+		{name: "extends", src: `{% extends "base" %}{% block c %}child{{ block.Super }}{% cycle "1" "2" %}@FAIL@{% endblock %}`, files: base, once: true},
+		{name: "extends3", once: true, src: `{% extends "mid" %}{% block d %}Cd{{ n }}@FAIL@{% endblock %}`, files: map[string]string{"/mid": `{% extends "base3" %}{% block c %}M({{ block.Super }}){% endblock %}`, "/base3": `[{% block c %}G{{ s }}{% endblock %}|{% block d %}d{% endblock %}]`}},
+		{name: "block-twice", once: true, src: `{% block b %}blk{{ n }}{% endblock %}@FAIL@|{% block bb %}{{ s }}{% endblock %}`},
 		{name: "block", src: `{% block b %}blk{{ n }}{% endblock %}`, body: func(in string) string { return "{% block bb %}" + in + "{% endblock %}" }},
 		{name: "firstof", src: `{% firstof missing s n %}`},
 		{name: "widthratio", src: `{% widthratio n 3 100 %}{% widthratio n 3 100 as w %}{{ w }}`},
@@ -229,6 +287,7 @@ func programs() []prog {
 		{name: "filter-error-pluralize-args", src: "{% if flag %}{{ n|pluralize:\"a,b,c\" }}{% else %}\n\n {{ n|pluralize:\"a,b,c\" }}{% endif %}"},
 		{name: "macro-deep", src: "{% macro r(k) %}{% if k > 0 %}{{ r(k - 1) }}{% endif %}{% endmacro %}{{ r(600) }}{{ n }}"},
 		{name: "import-deep", src: "{% import \"deeplib\" r %}{{ r(600) }}{{ n }}", files: map[string]string{"/deeplib": "{% macro r(k) export %}{% if k > 0 %}{{ r(k - 1) }}{% endif %}{% endmacro %}"}},
+		{name: "globals-sorted", src: `{% for i in gl sorted %}{{ i }}{% endfor %}|{% for i in gl %}{{ i }}{% endfor %}|{% for x in gs reversed sorted %}{{ x }}{% endfor %}{{ gs|join:"," }}|{% for k, v in gm sorted %}{{ k }}{{ v }}{% endfor %}{{ gl|slice:"1:" }}{{ gl|first }}{{ gs|last }}`},
 		{name: "whitespace-dash", src: " a \n{%- if flag -%}\n b \n{%- endif %}\n{{- n -}}\n c "},
 	}
 }
@@ -248,12 +307,30 @@ func run(r *eng.Runner) {
 		}
 		return true
 	})
+	// histories that also call ExecuteBlocks (entries 10, 11 = ExecuteBlocks with context A, B)
+	var blockHists [][]int
+	balpha := []int{0, 1, 2, 10, 11}
+	enum.Seqs(len(balpha), hl, func(idx []int) bool {
+		if len(idx) > 0 {
+			h := make([]int, len(idx))
+			for i, x := range idx {
+				h[i] = balpha[x]
+			}
+			blockHists = append(blockHists, h)
+		}
+		return true
+	})
+	useBlockHists := false
 	emit := func(label string, files map[string]string, histSel func(h []int) bool) {
+		hs := hists
+		if useBlockHists {
+			hs = blockHists
+		}
 		for opt := 0; opt < 5; opt++ {
 			if histSel != nil && r.Quick() && (opt == 1 || opt == 2) {
 				continue // nested pairs in the quick tier: options off, both on the set, both on the template
 			}
-			for _, h := range hists {
+			for _, h := range hs {
 				if histSel != nil && !histSel(h) {
 					continue
 				}
@@ -274,12 +351,14 @@ func run(r *eng.Runner) {
 		}
 		return f
 	}
-	r.Group("single", "c04.case", fmt.Sprintf("%d programs (every tag in a minimal use, expressions, filters, whitespace layouts) with a failure point in the middle x 5 option settings (TrimBlocks x LStripBlocks on the set; both on the compiled template) x ALL execution histories of length 1..%d over the contexts {A, B, failing, nil}", len(ps), hl))
+	r.Group("single", "c04.case", fmt.Sprintf("%d programs (every tag in a minimal use, expressions, filters, whitespace layouts) with a failure point in the middle x 5 option settings (TrimBlocks x LStripBlocks on the set; both on the compiled template) x ALL execution histories of length 1..%d over the contexts {A, B, failing, nil}; the inheritance / block programs over {Execute A, B, failing, ExecuteBlocks A, B}", len(ps), hl))
 	for _, p := range ps {
 		if p.src == "" {
 			continue
 		}
-		emit(p.name, mkFiles(p.src+failPoint+"\ntail\n"+p.src, p.files), nil)
+		useBlockHists = p.once
+		emit(p.name, mkFiles(mainOf(p), p.files), nil)
+		useBlockHists = false
 		if r.Stopped() {
 			return
 		}
@@ -290,7 +369,7 @@ func run(r *eng.Runner) {
 			continue
 		}
 		for _, in := range ps {
-			if in.src == "" || in.name == "extends" || (outer.name == "block" && (in.name == "block" || in.name == "extends")) || (outer.name == "macro" && in.name == "block") {
+			if in.src == "" || in.once || (outer.name == "block" && (in.name == "block" || in.name == "extends")) || (outer.name == "macro" && in.name == "block") {
 				continue
 			}
 			src := outer.body(in.src + failPoint)
@@ -320,13 +399,20 @@ func init() {
 	})
 }
 
+// SetGlobals gives the set data that every execution shares (unsorted lists of the plain slice types)
+func SetGlobals(set *pongo2.TemplateSet) {
+	set.Globals["gl"] = []int{3, 1, 2}
+	set.Globals["gs"] = []string{"b", "c", "a"}
+	set.Globals["gm"] = map[string]int{"z": 1, "y": 2}
+}
+
 // ProgramList exposes the program corpus (single constructs with a failure point) to other checks (C05).
 func ProgramList() (names []string, files []map[string]string) {
 	for _, p := range programs() {
 		if p.src == "" {
 			continue
 		}
-		f := map[string]string{"/main": p.src + failPoint + "\ntail\n" + p.src}
+		f := map[string]string{"/main": mainOf(p)}
 		for k, v := range p.files {
 			f[k] = v
 		}
